@@ -19,7 +19,9 @@ The checker `check src out` reports
 
 Decisions about differences that are *not* violations (see design.d/C11.md):
 * an absent option table equals a present table without fields (Vela always writes the operator's own table);
-* a quantisation table without scale / zero point / min / max equals no table;
+* a quantisation table without scale and zero point equals no table (also when it only carries min / max, which
+  Vela's reader drops and no runtime reads); min / max next to a scale are compared exactly; a scale without zero-point vector
+  means zero point 0 (the legal-but-unusual encodings the generator emits are judged by their meaning);
 * trailing absent (-1) operands are not significant (CONV_2D [x, w] ≡ [x, w, -1]);
 * source operators that reach no output may disappear;
 * SHAPE, and operators all of whose operands are constants, may be replaced by a constant tensor of the same
@@ -110,8 +112,15 @@ def opOutputs (g : PGraph) (j : Nat) : List Nat :=
 
 /-! ## normal forms -/
 
+/-- Quantisation parameters are compared by their *meaning* to a TFLite runtime:
+    * a table without scale and without zero point says nothing about how to execute (≡ no table), even if it
+      carries a min / max range: Vela's reader drops such a table (`parse_tensor`), the runtime ignores it;
+    * an absent (or empty) zero-point vector next to a scale means zero point 0 for every scale entry. -/
 def normQuant : Option Quant → Option Quant
-  | some q => if q.scale.isEmpty && q.zeroPoint.isEmpty && q.min.isEmpty && q.max.isEmpty then none else some q
+  | some q =>
+    if q.scale.isEmpty && q.zeroPoint.isEmpty then none
+    else if q.zeroPoint.isEmpty && !q.scale.isEmpty then some { q with zeroPoint := q.scale.map fun _ => 0 }
+    else some q
   | none => none
 
 /-- which quantisation fields differ (for the problem text; min / max are compared exactly like scale / zero point) -/
